@@ -17,11 +17,11 @@ EXPLANATION = (
 )
 OUTSIDE = [
     "symlinks, case-insensitive or Windows path semantics (posix only)",
-    "names longer than the stated bound; alphabets other than { / . a ~ e-acute }",
+    "names longer than the stated bound; alphabets other than { / . a ~ e-acute backslash }",
     "the thread-pool hop of get_source_async (run_in_executor runs its callable inline under a stub loop)",
 ]
 
-ALPHA = "/.a~é"
+ALPHA = "/.a~é\\"
 ROOT1 = "/srv/t"
 ROOT2 = "/srv/u"
 
@@ -87,7 +87,7 @@ def _resolve_ok(loader, roots: list[str], name: str) -> bool:
     return any(inside(r, s) for r in roots)
 
 
-_GRID = [("a",), ("/a",), ("/.",), ("../a",), ("a/../../b",), ("..",), ("",), (".",), ("/",), ("a/b.c",), ("~",), ("é/a",), ("a/..a",), ("//a",), ("./a",)]
+_GRID = [("..\\a",), ("\\a",), ("a",), ("/a",), ("/.",), ("../a",), ("a/../../b",), ("..",), ("",), (".",), ("/",), ("a/b.c",), ("~",), ("é/a",), ("a/..a",), ("//a",), ("./a",)]
 
 
 @cond(
@@ -98,7 +98,7 @@ _GRID = [("a",), ("/a",), ("/.",), ("../a",), ("a/../../b",), ("..",), ("",), ("
     timeout_thorough=1500,
     shard={"ext": [False, True], "two": [False, True]},
     covers="FileSystemLoader.resolve_path returns only paths lexically inside a search path, else TemplateNotFoundError",
-    bounds="name over {/ . a ~ e-acute}, len <= 4 (thorough 5); ext in {None,.liquid}; 1 or 2 search paths; fs stub: everything exists",
+    bounds="name over {/ . a ~ e-acute backslash}, len <= 4 (thorough 5); ext in {None,.liquid}; 1 or 2 search paths; fs stub: everything exists",
     stubs=("Path.exists/is_file := True for every path", STUB_INTERN),
     grid=lambda: [(n, e, t, 9) for (n,) in _GRID for e in (False, True) for t in (False, True)],
 )
@@ -151,7 +151,7 @@ def twin_fs_resolve(name: str) -> bool:
     timeout=240,
     timeout_thorough=1500,
     covers="PackageLoader._resolve_path returns only paths inside package/package_path",
-    bounds="name over {/ . a ~ e-acute}, len <= 4 (thorough 5); package liquid2, package_path builtin; is_file := True",
+    bounds="name over {/ . a ~ e-acute backslash}, len <= 4 (thorough 5); package liquid2, package_path builtin; is_file := True",
     stubs=("Path.exists/is_file := True for every path", STUB_INTERN),
     grid=lambda: [(n, 9) for (n,) in _GRID],
 )
@@ -180,7 +180,7 @@ class _RecordingCFS(CachingFileSystemLoader):
         return "T", 0.0
 
 
-HOSTILE = ["a", "/etc/passwd", "../x", "a/../../x", "/", ".", "", "./a", "//a", "a/./b", "..", "/srv/t/../x"]
+HOSTILE = ["a", "/etc/passwd", "../x", "a/../../x", "/", ".", "", "./a", "//a", "a/./b", "..", "/srv/t/../x", "..\\x", "\\etc\\passwd", "a\\..\\..\\x", "\\"]
 
 
 VIA_SRC = [None, "{% include n %}", "{% render 'X' %}", "{% extends 'X' %}"]
@@ -230,7 +230,7 @@ def _tag_ok(kind: int, via: int, name: str, ext: bool, is_async: bool = False) -
     timeout_thorough=1200,
     shard={"via": [0, 1, 2, 3], "ext": [False, True], "is_async": [False, True]},
     covers="get_template / get_template_async / {% include %} with a data-supplied name and {% render %} / {% extends %} with any literal name (render and render_async) only ever read files inside the search path or package directory (FileSystemLoader, CachingFileSystemLoader, PackageLoader, ChoiceLoader over each), through get_source and get_source_async",
-    bounds="name over {/ . a ~ e-acute} len <= 3; 6 loader kinds; sync and async; fs stub: everything exists, reads are recorded",
+    bounds="name over {/ . a ~ e-acute backslash} len <= 3; 6 loader kinds; sync and async; fs stub: everything exists, reads are recorded",
     stubs=("Path.exists/is_file := True for every path", "FileSystemLoader._read / Path.read_text record the path and return a fixed source", "asyncio.get_running_loop := inline stub loop (see common.STUB_LOOP)"),
     grid=lambda: [(k, v, n, e, a) for k in range(6) for v in range(4) for n in HOSTILE for e in (False, True) for a in (False, True)],
 )
